@@ -39,6 +39,10 @@ class PyRaise(Exception):
         self.cls = cls
         self.payload = payload
 
+class _Break(Exception):
+    pass
+
+
 class _Return(Exception):
     def __init__(self, value):
         self.value = value
@@ -214,6 +218,13 @@ class MapList:
         return chunks[0] if len(chunks) == 1 else "(" + " ++ ".join(chunks) + ")"
 
 
+class ReRes:
+    """result of `pattern.match(s)` / `pattern.search(s)` on a symbolic string: only its being None or not is used"""
+
+    def __init__(self, lean):
+        self.lean_text = lean
+
+
 class NumVal:
     """the number of a Fuzzy / Proximity / Boost (a variable `n : Num` of the generated function)"""
 
@@ -326,7 +337,8 @@ def _is_generator(node):
 
 def func_ast(fn):
     if fn not in _SRC_CACHE:
-        src = textwrap.dedent(inspect.getsource(fn))
+        fn0 = inspect.unwrap(fn) if False else fn
+        src = textwrap.dedent(inspect.getsource(fn0.__code__))
         node = ast.parse(src).body[0]
         if not isinstance(node, ast.FunctionDef):
             raise Untranslatable("not a plain function: %r" % (fn,))
@@ -398,14 +410,23 @@ class Interp:
             raise Untranslatable("truth value of a symbolic integer")
         if isinstance(v, SBool):
             return self.decide(("bool", v.lean()), ("bool", v.lean()), 2) == 0
+        if isinstance(v, ReRes):
+            return self.decide(("bool", v.lean_text), ("bool", v.lean_text), 2) == 0
         if isinstance(v, ListObj):
             self.normalize_list(v)
-            for k, e in v.segs:
-                if k == "elem":
+            guard = 0
+            while True:
+                guard += 1
+                if guard > 1000:
+                    raise Untranslatable("truth value of a list does not terminate")
+                if any(k == "elem" for k, _ in v.segs):
                     return True
-                if self.list_case(e) is not None:
-                    return True
-            return False
+                if not v.segs:
+                    return False
+                k, e = v.segs[-1]
+                # (seen from its end: `xs and xs[-1]` then needs one case distinction only)
+                self.list_back_case(e if k == "sym" else e.src)
+                self.normalize_list(v)
         if isinstance(v, (Obj, ExcVal, types.FunctionType, type)):
             return True
         if isinstance(v, SInt):
@@ -558,6 +579,8 @@ class Interp:
         if isinstance(v, Obj):
             if name in v.attrs:
                 return v.attrs[name]
+            if name == "__class__" and v.cls is not None:
+                return v.cls
             if name in LAY_ATTRS and v.lay is not None:
                 if name in ("head", "tail"):
                     val = SStr.var("%s.%s" % (v.lay, name))
@@ -582,6 +605,14 @@ class Interp:
             raise Untranslatable("list.%s" % name)
         if isinstance(v, (str, SStr)) and name == "join":
             return ("strmethod", "join", v)
+        if isinstance(v, str) and name in ("isupper", "islower", "lower", "upper", "lstrip", "rstrip", "strip"):
+            return getattr(v, name)
+        if isinstance(v, type) and name in ("mro", "__name__", "__mro__"):
+            return getattr(v, name)
+        if isinstance(v, Obj) and name == "__class__" and v.cls is not None:
+            return v.cls
+        if type(v).__name__ == "Pattern" and name in ("match", "search"):
+            return ("remethod", name, v.pattern)
         if isinstance(v, (str, SStr)) and name in ("endswith", "startswith"):
             return ("strmethod", name, v)
         if isinstance(v, dict) and name in ("update", "get"):
@@ -593,6 +624,8 @@ class Interp:
         if isinstance(v, (str, int, float, bool)) or v is None:
             raise Untranslatable("attribute %s of a constant" % name)
         # a concrete python object of the implementation (module, singleton instance, class)
+        if not hasattr(v, name):
+            raise AttributeError(name)
         val = getattr(v, name)
         if isinstance(val, types.MethodType) and val.__self__ is v and isinstance(val.__func__, types.FunctionType):
             owner = next(c for c in type(v).__mro__ if name in c.__dict__)
@@ -666,6 +699,19 @@ class Interp:
             if isinstance(seq, MapList):
                 return SStr.var("(joinWith %s %s)" % (str_lean(f[2]), seq.lean()))
             raise Untranslatable("join of %r" % (seq,))
+        import functools as _ft, math as _math
+        if isinstance(f, _ft.partial) and f.func is _math.copysign and f.args == (1,) and not f.keywords and \
+                len(args) == 1 and isinstance(args[0], NumVal):
+            return ("signof", args[0])
+        if isinstance(f, tuple) and f and f[0] == "remethod":
+            (x,) = args
+            if not isinstance(x, (str, SStr)):
+                raise Untranslatable("regex on %r" % (x,))
+            return ReRes("(PyPrim.re%s %s %s)" % (f[1].capitalize(), lean_string(f[2]), str_lean(x)))
+        if isinstance(f, types.BuiltinMethodType) and isinstance(getattr(f, "__self__", None), (str, type)):
+            if all(isinstance(a, (str, int, bool)) or a is None for a in args) and not kwargs:
+                return self.wrap(f(*args))
+            raise Untranslatable("method of a constant with symbolic arguments")
         if isinstance(f, tuple) and f and f[0] == "nummethod":
             v = f[2]
             return v if v.lean_name.startswith("(PyPrim.renorm ") else NumVal("(PyPrim.renorm %s)" % v.lean_name, True)
@@ -702,7 +748,7 @@ class Interp:
             if not (f.__module__ or "").startswith(self.modules_ok):
                 raise Untranslatable("call of %s.%s" % (f.__module__, f.__name__))
             return self.call_function(f, args, kwargs, owner=None, self_obj=None)
-        if isinstance(f, types.BuiltinFunctionType) or f in (len, sum, isinstance, format, getattr, setattr):
+        if isinstance(f, types.BuiltinFunctionType) or f in (len, sum, isinstance, format, getattr, setattr, iter):
             return self.call_builtin(f, args, kwargs)
         if isinstance(f, type):
             if issubclass(f, BaseException):
@@ -784,6 +830,21 @@ class Interp:
             return total
         if f is isinstance:
             return self.isinstance_(args[0], args[1])
+        if f is iter and len(args) == 1 and isinstance(args[0], (ListObj, list)):
+            return args[0]
+        if f is getattr and len(args) == 3 and isinstance(args[1], str):
+            o = args[0]
+            if isinstance(o, Obj):
+                if args[1] in o.attrs or (o.cls is not None and hasattr(o.cls, args[1])) or \
+                        (args[1] in LAY_ATTRS and o.lay is not None):
+                    return self.getattr_(o, args[1], None)
+                if o.cls is None:
+                    raise Untranslatable("getattr with a default on an item of unknown class")
+                return args[2]
+            try:
+                return self.getattr_(o, args[1], None)
+            except AttributeError:
+                return args[2]
         if f is getattr and len(args) == 2 and isinstance(args[1], str):
             if isinstance(args[0], Obj) and args[0].cls is None and args[1] not in args[0].attrs \
                     and args[1] not in LAY_ATTRS:
@@ -801,6 +862,8 @@ class Interp:
                 return a
             if isinstance(a, NumVal):
                 return SStr.var("(PyPrim.str%s %s)" % ("Decimal" if a.is_decimal else "Int", a.lean_name))
+            if isinstance(a, Obj) and "__str__" in self.rec_hooks:
+                return self.rec_hooks["__str__"](self, a, [], {})
             raise Untranslatable("str() of %r" % (a,))
         if f is format:
             if len(args) == 2 and isinstance(args[0], NumVal) and args[1] == "f" and args[0].is_decimal:
@@ -856,7 +919,9 @@ class Interp:
         node = func_ast(fn)
         if node.decorator_list and not all(
                 (isinstance(d, ast.Name) and d.id in ("property", "classmethod")) or
-                (isinstance(d, ast.Attribute) and d.attr == "setter" and isinstance(d.value, ast.Name))
+                (isinstance(d, ast.Attribute) and d.attr == "setter" and isinstance(d.value, ast.Name)) or
+                (isinstance(d, ast.Call) and isinstance(d.func, ast.Attribute) and d.func.attr == "wraps") or
+                (isinstance(d, ast.Name) and d.id.startswith("_check"))
                 for d in node.decorator_list):
             raise Untranslatable("decorated function %s" % fn.__name__)
         frame = Frame(fn, owner, self_obj)
@@ -967,20 +1032,29 @@ class Interp:
             else:
                 self.exec_block(s.orelse, frame)
         elif isinstance(s, ast.For):
-            if s.orelse:
-                raise Untranslatable("for ... else")
             it = self.eval(s.iter, frame)
             if isinstance(it, list):
                 it = ListObj([("elem", x) for x in it])
             if not isinstance(it, ListObj):
                 raise Untranslatable("loop over %r" % (it,))
             self.normalize_list(it)
+            broke = False
             for k, x in list(it.segs):
                 if k == "elem":
                     self.assign(s.target, x, frame)
-                    self.exec_block(s.body, frame)
+                    try:
+                        self.exec_block(s.body, frame)
+                    except _Break:
+                        broke = True
+                        break
                 else:
+                    if any(isinstance(n, ast.Break) for st in s.body for n in ast.walk(st)):
+                        raise Untranslatable("break inside a loop over a list of unknown length")
                     self.loop_lazy(s, frame, k, x)
+            if not broke:
+                self.exec_block(s.orelse, frame)
+        elif isinstance(s, ast.Break):
+            raise _Break()
         elif isinstance(s, ast.Pass):
             pass
         elif isinstance(s, ast.Assert):
@@ -1053,9 +1127,9 @@ class Interp:
             def stage(value):
                 out = run_body(value)
                 self.normalize_list(out)
-                if len(out.segs) != 1 or out.segs[0][0] != "elem":
-                    raise Untranslatable("a loop body that does not yield exactly one value per element")
-                return out.segs[0][1]
+                if len(out.segs) == 1 and out.segs[0][0] == "elem":
+                    return out.segs[0][1]
+                return out              # a list per element: the segment is a flat map
             prev = list(lm.stages) if lm is not None else []
             frame.yields.segs.append(("lmap", LMap(src, prev + [stage])))
         else:
@@ -1150,6 +1224,8 @@ class Interp:
                     items = [e for _, e in b.segs]
                 else:
                     items = [b]
+                if "__str__" in self.rec_hooks:
+                    items = [self.rec_hooks["__str__"](self, x, [], {}) if isinstance(x, Obj) else x for x in items]
                 pieces = a.split("%s")
                 if "%" not in a.replace("%s", "") and len(pieces) == len(items) + 1 and \
                         all(isinstance(x, (str, SStr)) for x in items):
@@ -1170,6 +1246,9 @@ class Interp:
                 return frame.locals[e.id]
             if e.id in frame.globals:
                 return self.wrap(frame.globals[e.id])
+            code = frame.fn.__code__
+            if e.id in code.co_freevars and frame.fn.__closure__:
+                return self.wrap(frame.fn.__closure__[code.co_freevars.index(e.id)].cell_contents)
             import builtins
             if hasattr(builtins, e.id):
                 return getattr(builtins, e.id)
@@ -1346,6 +1425,8 @@ class Interp:
                 raise Untranslatable("comprehension")
             g = e.generators[0]
             it = self.eval(g.iter, frame)
+            if isinstance(it, str):
+                it = list(it)
             if isinstance(it, ListObj):
                 self.normalize_list(it)
                 if not all(k == "elem" for k, _ in it.segs):
@@ -1407,6 +1488,12 @@ class Interp:
             return self.eval(e.body if self.truth(self.eval(e.test, frame)) else e.orelse, frame)
         raise Untranslatable("expression %s" % type(e).__name__)
     def compare(self, op, a, b):
+        if isinstance(op, (ast.Is, ast.IsNot)) and (isinstance(a, ReRes) or isinstance(b, ReRes)):
+            r = a if isinstance(a, ReRes) else b
+            o2 = b if isinstance(a, ReRes) else a
+            if o2 is not None:
+                raise Untranslatable("identity test of a match object")
+            return SBool("(!%s)" % r.lean_text) if isinstance(op, ast.Is) else SBool(r.lean_text)
         if isinstance(op, (ast.Is, ast.IsNot)):
             if b is None or a is None:
                 other = a if b is None else b
@@ -1416,6 +1503,9 @@ class Interp:
             else:
                 r = a is b
             return r if isinstance(op, ast.Is) else not r
+        if isinstance(op, ast.Lt) and isinstance(a, tuple) and a and a[0] == "signof" and b == 0 and \
+                not isinstance(b, bool):
+            return SBool("(PyPrim.signNegative %s)" % a[1].lean_name)
         if isinstance(op, (ast.Eq, ast.NotEq)):
             neg = isinstance(op, ast.NotEq)
             if all(isinstance(x, (bool, int, str)) or x is None for x in (a, b)):
@@ -1525,7 +1615,7 @@ def emit_list(interp, lst):
     cur = []
     for kind, x in lst.segs:
         if kind == "elem":
-            cur.append(emit_value(interp, x, "tree"))
+            cur.append(emit_any(interp, x))
         else:
             if cur:
                 chunks.append("[" + ", ".join(cur) + "]")
@@ -1536,12 +1626,22 @@ def emit_list(interp, lst):
                 val = x.build(interp, Obj(None, lean=var, lay="%s.lay" % var))
                 if len(interp.o.trace) != n0:
                     raise Untranslatable("branching while building the element of a mapped list")
-                chunks.append("(%s.map fun %s => %s)" % (x.src, var, emit_value(interp, val, "tree")))
+                if isinstance(val, ListObj):
+                    chunks.append("(%s.flatMap fun %s => %s)" % (x.src, var, emit_list(interp, val)))
+                else:
+                    chunks.append("(%s.map fun %s => %s)" % (x.src, var, emit_any(interp, val)))
             else:
                 chunks.append(x)
     if cur or not chunks:
         chunks.append("[" + ", ".join(cur) + "]")
     return chunks[0] if len(chunks) == 1 else "(" + " ++ ".join(chunks) + ")"
+
+def emit_any(interp, v):
+    """an element of a list: an item or a string"""
+    if isinstance(v, (str, SStr)):
+        return str_lean(v)
+    return emit_value(interp, v, "tree")
+
 
 def emit_value(interp, v, kind):
     if kind == "tree":
@@ -2270,4 +2370,70 @@ def translate_visits(T, V, U):
                 return emit_raise(e)
             return "Except.ok %s" % emit_items(it, res)
         add("openrange_%s" % cname, lambda holder=holder: holder["p"], run)
+    return out
+
+
+# ---------------------------------------------------------------------------------------------
+# LuceneCheck.check, one step per class
+# ---------------------------------------------------------------------------------------------
+
+def _item_term(cname, o):
+    """the Lean term of a symbolic instance made by class_inputs"""
+    if cname == "NoneItem":
+        return "(Tree.none l)"
+    prefix, fields = CLASS_TABLE[cname]
+    args = []
+    for f in fields:
+        if f == "@num":
+            args.append("n")
+        else:
+            v = o.attrs[f]
+            args.append(v.lean if isinstance(v, Obj) else v.segs[0][1] if isinstance(v, ListObj) else
+                        v.lean() if hasattr(v, "lean") else str(v))
+    return "(%s %s l)" % (prefix, " ".join(args))
+
+
+def translate_check(T, C):
+    """`LuceneCheck(zeal).check(item, parents)` for an instance of every concrete class under an arbitrary list of
+    ancestors: the list of messages. `self.check(child, parents + [item])` is the parameter `recCheck`, `str(x)` the
+    parameter `recStr`; `zealOn` is `bool(zeal)`."""
+    out = []
+    for cname in PRINT_CLASSES:
+        holder = {}
+
+        def run(oracle, cname=cname, holder=holder):
+            it = Interp(oracle)
+            item, params = class_inputs(T, cname)
+            item.lean = _item_term(cname, item)
+            holder["p"] = ["(recCheck : Tree → List Tree → List Str)", "(recStr : Tree → Str)", "(zealOn : Bool)",
+                           "(ps : List Tree)"] + params
+            me = Obj(C.LuceneCheck, lean="@self")
+            me.attrs["zeal"] = SBool("zealOn")
+
+            def rec_check(interp, obj, args, kwargs):
+                child, parents = args[0], (args[1] if len(args) > 1 else kwargs.get("parents"))
+                if not isinstance(child, Obj) or child.lean is None or not isinstance(parents, ListObj):
+                    raise Untranslatable("check on something that is not an input item")
+                return ListObj([("sym", "(recCheck %s %s)" % (child.lean, emit_list(interp, parents)))])
+
+            def rec_str(interp, obj, args, kwargs):
+                if obj.lean is None:
+                    raise Untranslatable("str of a new item")
+                return SStr.var("(recStr %s)" % obj.lean)
+            it.rec_hooks["check"] = rec_check
+            it.rec_hooks["__str__"] = rec_str
+            me.attrs["check"] = ("rechook", "check", me)
+            try:
+                res = it.call_function(C.LuceneCheck.__dict__["check"], [me, item, ListObj([("sym", "ps")])], {},
+                                       owner=C.LuceneCheck, self_obj=me)
+            except PyRaise as e:
+                return emit_raise(e)
+            if not isinstance(res, ListObj):
+                raise Untranslatable("check does not yield messages")
+            return "Except.ok %s" % emit_list(it, res)
+        try:
+            paths = explore(run)
+            out.append(("check_%s" % cname, holder["p"], build_tree(paths, 0, 1), None, len(paths)))
+        except Untranslatable as e:
+            out.append(("check_%s" % cname, None, None, str(e), 0))
     return out
